@@ -8,6 +8,7 @@ import (
 	"path/filepath"
 	"strconv"
 	"strings"
+	"sync"
 	"time"
 
 	"github.com/protomaps/go-pmtiles/pmtiles"
@@ -210,7 +211,13 @@ func c10(r *rng, tier string, o *out) {
 	}
 	seed := r.next() % 100000
 	self, _ := os.Executable()
-	runChild := func(kind string, from, to int) {
+	type rec struct {
+		line, impl string
+		viol       []string
+	}
+	// one chunk of schedules in child processes (restarted after a crash or hang); results in order
+	runChunk := func(kind string, from, to int) []rec {
+		var out []rec
 		for from < to {
 			dir, _ := os.MkdirTemp("", "vh-c10")
 			cmd := exec.Command(self, "C10child", kind, fmt.Sprint(seed), fmt.Sprint(from), fmt.Sprint(to), dir)
@@ -237,13 +244,11 @@ func c10(r *rng, tier string, o *out) {
 					if len(parts) < 4 {
 						continue
 					}
-					idx := o.emit(parts[1], parts[2], true)
-					o.count(kind)
+					rc := rec{line: parts[1], impl: parts[2]}
 					if parts[3] != "" {
-						for _, v := range strings.Split(parts[3], "\x1f") {
-							o.violation(idx, v)
-						}
+						rc.viol = strings.Split(parts[3], "\x1f")
 					}
+					out = append(out, rc)
 					completed++
 				}
 				f.Close()
@@ -258,13 +263,46 @@ func c10(r *rng, tier string, o *out) {
 			if timedOut {
 				what = "the server process hung (no progress)"
 			}
-			idx := o.emit(fmt.Sprintf("%s %d %d", kind, seed, bad), "crash", true)
-			o.violation(idx, fmt.Sprintf("%s during %s schedule %d of seed %d", what, kind, bad, seed))
+			out = append(out, rec{line: fmt.Sprintf("%s %d %d", kind, seed, bad), impl: "crash",
+				viol: []string{fmt.Sprintf("%s during %s schedule %d of seed %d", what, kind, bad, seed)}})
 			from = bad + 1
 		}
+		return out
 	}
-	runChild("sched", 0, nfault)
-	runChild("malformed", 0, nmal)
+	// chunks of 120 schedules, eight child processes at a time: a process that has started hundreds of servers carries their
+	// event-loop goroutines along, which slows the quiescence test down and finally overflows its goroutine dump
+	runAll := func(kind string, n int) {
+		const chunk = 120
+		nchunks := (n + chunk - 1) / chunk
+		results := make([][]rec, nchunks)
+		sem := make(chan bool, 8)
+		var wg sync.WaitGroup
+		for c := 0; c < nchunks; c++ {
+			wg.Add(1)
+			sem <- true
+			go func(c int) {
+				defer wg.Done()
+				hi := (c + 1) * chunk
+				if hi > n {
+					hi = n
+				}
+				results[c] = runChunk(kind, c*chunk, hi)
+				<-sem
+			}(c)
+		}
+		wg.Wait()
+		for _, rs := range results {
+			for _, rc := range rs {
+				idx := o.emit(rc.line, rc.impl, true)
+				o.count(kind)
+				for _, v := range rc.viol {
+					o.violation(idx, v)
+				}
+			}
+		}
+	}
+	runAll("sched", nfault)
+	runAll("malformed", nmal)
 }
 
 func c10child() {
